@@ -268,7 +268,7 @@ class Emitter:
         vs = ''.join('    %sV%d,\n' % ('#[default] ' if i == dflt else '', i) for i in range(n))
         arms = ''.join('            %d => %s::V%d,\n' % (i, name, i) for i in range(n))
         self.items.append(f'''
-#[derive(Clone, Copy)]
+#[derive(Clone, Copy, PartialEq)]
 {self.attrs(t)}
 pub enum {name} {{
 {vs}}}
@@ -308,7 +308,7 @@ impl_dyn_sized!({name});
         dflt = has_default(t)
         pdef = PUSH_DEFAULT if dflt else ''
         src = f'''
-{'#[derive(Clone)]' if sized else ''}
+{'#[derive(Clone, PartialEq)]' if sized else ''}
 {self.attrs(t)}
 pub struct {name}{body}
 impl DeepRead for {name} {{
@@ -403,7 +403,7 @@ impl_dyn_sized!({name});
             '    #[allow(unused_variables)]\n    fn hop(&mut self, op: &HOp) -> String {\n        match self.as_mut() {\n'
             + hop_arms + '        }\n    }\n')
         src = f'''
-{'#[derive(Clone)]' if sized else ''}
+{'#[derive(Clone, PartialEq)]' if sized else ''}
 {self.attrs(t)}
 pub enum {name} {{
 {variants}}}
@@ -546,7 +546,7 @@ def fixed_shapes():
         V(UNIT, 'u8'), V(A(U8, 3), 'u8'), V(S(U8, U16), 'u8'),
         FS('u8'), FS('u16'), FS('u32'), FS('u64'), FS('le::U16'), FS('be::U32'),
         FX(U8, 'u8'), FX(U32, 'u8'), FX(V(I('i32'), 'u16'), 'u16'), FX(V(U8, 'u8'), 'u8'), FX(FS('u16'), 'u16'),
-        FX(U8, 'u16'), FX(V(U8, 'u8'), 'le::U16'), FX(FX(U8, 'u8'), 'u8'), FX(sb, 'u8'), FX(U64, 'u32'),
+        FX(FS('le::U16'), 'be::U16'), FX(U8, 'u16'), FX(V(U8, 'u8'), 'le::U16'), FX(FX(U8, 'u8'), 'u8'), FX(sb, 'u8'), FX(U64, 'u32'),
         # unsized structs (tests/src/unsized_struct; D3, D18)
         US(U8, U16, V(U64, 'u32')),
         US(U32, V(U8, 'u16')), US(U32, V(U8, 'u8')), US(U8, V(U8, 'u8')), US(V(U8, 'u8')),
@@ -572,6 +572,9 @@ def fixed_shapes():
         UE('u8', 0, [], [FX(V(U8, 'u8'), 'u8')]),
         UE('u8', 0, [], [U32]),
         inner,
+        # the #[default] unit variant declared last and the only smallest one; wide tags
+        UE('u8', 2, [U32, V(U8, 'u16')], [U32], []), US(U8, UE('u8', 1, [U16, V(U16, 'u16')], [])),
+        UE('u16', 2, [U32, V(U8, 'u16')], [U32], []), UE('u32', 1, [U8, FS('u8')], []), UE('u16', 0, [], [U8, V(U8, 'u8')]),
         # portable composites
         ('struct', True, (I('le::U32'), BOOL, I('be::I16')), 'np'),
         ('struct', False, (I('le::U16'), V(I('be::U32'), 'le::U16')), 'np'),
@@ -604,8 +607,10 @@ def random_sized(rng, depth):
         return ('struct', True, tuple(random_sized(rng, depth - 1) for _ in range(n)), rng.choice('nt'))
     nv = rng.randint(1, 4)
     vs = [tuple(random_sized(rng, depth - 1) for _ in range(rng.randint(0, 3))) for _ in range(nv)]
-    vs[0] = ()
-    return ('enum', True, rng.choice(TAG_TYPES), 0, tuple(vs), rng.choice('nt'))
+    # the #[default] unit variant sits at a random position (first, middle or last)
+    k = rng.randrange(nv)
+    vs[k] = ()
+    return ('enum', True, rng.choice(TAG_TYPES), k, tuple(vs), rng.choice('nt'))
 
 
 def random_unsized(rng, depth):
@@ -632,10 +637,11 @@ def random_unsized(rng, depth):
             vs.append(())
         else:
             vs.append(tuple([random_sized(rng, depth - 1) for _ in range(n - 1)] + [random_any(rng, depth - 1)]))
-    vs[0] = ()
+    k = rng.randrange(nv)
+    vs[k] = ()
     if all(len(v) == 0 for v in vs):
         vs.append((random_any(rng, depth - 1),))
-    return ('enum', False, rng.choice(TAG_TYPES), 0, tuple(vs), rng.choice('nt'))
+    return ('enum', False, rng.choice(TAG_TYPES), k, tuple(vs), rng.choice('nt'))
 
 
 def random_any(rng, depth):
